@@ -45,9 +45,12 @@ header line too) to collect `later_errors` - a superset of the further errors of
 may hide the start of a here-document whose body looks like a header).
 
 `swallow=True` reads the same text under the defect model of known finding KF-C07-1: an incomplete
-instruction takes the next non-blank line as its missing argument even when that line is a
-header line (only if that line is a single token); a pending list continuation takes the header line that
-follows it as list elements.
+instruction whose parser wants one more token (the name alone: file dir cd exists; ending with `=`: def file env
+timeout stdin), one or two (`copy`) or at least one (`run`) takes the next non-blank line as its missing
+argument(s) even when that line is a header line (only if that line has that many tokens, none of them a reserved
+word: `[act]`, `  [setup] `, `[nophase]`, `[setup`, ..., for copy / run also `[setup] x`); a pending list continuation takes the header line that directly follows it as list elements
+(not if it contains `#` or a reserved word).  The instruction then spans all lines up to and including the header
+line, the phase does not change, reading goes on after the header line.
 """
 import posixpath
 import re
@@ -153,11 +156,20 @@ _IN_BRACES_RE = re.compile(r'^((file|dir) %s( = (\{|<<[0-9a-zA-Z_-]+|%s))?|%s : 
 _RESERVED = {'[', ']', '(', ')', '{', '}', '=', '|', ':', '!', '&&', '||'}  # strings only when quoted
 
 
-def _takes_one_more_token(name, tokens):
-    """defect model KF-C07-1: the forms whose parser reads exactly one more token from the following lines"""
+def _missing_argument_tokens(name, tokens):
+    """defect model KF-C07-1: how many tokens the parser of the incomplete instruction reads from the following
+    lines -> (min, max) (max None: any number), or None if the form is not one that takes the next line"""
     if len(tokens) == 1:
-        return name in ('file', 'dir', 'cd', 'exists')
-    return tokens[-1] == '=' and name in ('def', 'file', 'env', 'timeout', 'stdin')
+        if name in ('file', 'dir', 'cd', 'exists'):
+            return 1, 1
+        if name == 'copy':
+            return 1, 2  # SOURCE [DESTINATION]
+        if name == 'run':
+            return 1, None  # PROGRAM ARGUMENT...
+        return None
+    if tokens[-1] == '=' and name in ('def', 'file', 'env', 'timeout', 'stdin'):
+        return 1, 1
+    return None
 
 
 _SYMBOL_NAME_RE = re.compile(r'^[A-Z][A-Z0-9_]+$')
@@ -303,6 +315,7 @@ class Reader:
         self.swallowed = 0
         self.borders = {}  # file -> indices of its top level header lines (files that were read)
         self._visited = set()
+        self._included = set()
         self._budget = max_files
         self._recovering = False
         self._labels_of_reading = self.labels
@@ -449,6 +462,9 @@ class Reader:
             raise RuntimeError('reference reader: inclusion budget exceeded (generator bug)')
         self.n_inclusions += 1
         self.labels.add('inclusion')
+        if real in self._included:
+            self.labels.add('included-twice')  # (diamond: the same file spliced in at several places)
+        self._included.add(real)
         if posixpath.dirname(target) != posixpath.dirname(path):
             self.labels.add('inclusion-other-dir')
         before = len(self.headers_seen)
@@ -540,8 +556,10 @@ class Reader:
                 self.labels.add('incomplete-then-eof')
             elif is_header_line(lines[k]):
                 self.labels.add('incomplete-then-header')
-                if self.swallow and len(lines[k].split()) == 1 and _takes_one_more_token(name, tokens) \
-                        and lines[k].split()[0] not in _RESERVED:
+                takes = _missing_argument_tokens(name, tokens) if self.swallow else None
+                given = lines[k].split()
+                if takes is not None and takes[0] <= len(given) and (takes[1] is None or len(given) <= takes[1]) \
+                        and not any(t in _RESERVED for t in given):
                     self.swallowed += 0 if self._recovering else 1
                     return k + 1
             else:
